@@ -302,6 +302,7 @@ def run_opt_scenario(scn, workdir):
     run = {"cfg": cfg, "script": script, "impl": impl, "gate": gate}
     sampler, pruner, exc_for, armed = make_sampler_pruner(impl, script, cfg["nobj"])
     storage = make_storage(impl.get("storage", "inmemory"), workdir)
+    common.decoy(storage, (len(script) + cfg["nobj"]) % 3)
     study = optuna.create_study(storage=storage, directions=["minimize", "maximize", "minimize"][: cfg["nobj"]],
                                 sampler=sampler, pruner=pruner)
     for x in cfg["pre"]:
@@ -359,6 +360,7 @@ def run_tell_scenario(scn, workdir):
     nobj = cfg["nobj"]
     _, _, reports = _tables()
     storage = make_storage(impl.get("storage", "inmemory"), workdir)
+    common.decoy(storage, (impl.get("seed", 0) + nobj) % 3)
     study = optuna.create_study(storage=storage, directions=["minimize", "maximize"][:nobj],
                                 sampler=optuna.samplers.RandomSampler(seed=impl.get("seed", 0)))
     if cfg["pre"] == ["W"]:
